@@ -116,9 +116,42 @@ def static_scan():
     return bad
 
 
+def assemble_project():
+    """_CoqProject and Extract/Extract.v are assembled from fragments (coq/project.d/*.list, coq/extract.d/*.ext) so that
+    components can be added without editing a shared file"""
+    head = ("-Q theories Ristretto\n-arg -w -arg -notation-overridden,-deprecated-hint-without-locality,"
+            "-deprecated-instance-without-locality\n")
+    files = []
+    d = os.path.join(COQ, "project.d")
+    for f in sorted(os.listdir(d)):
+        if f.endswith(".list"):
+            files += [l.strip() for l in open(os.path.join(d, f)) if l.strip() and not l.startswith("#")]
+    write_if_changed(os.path.join(COQ, "_CoqProject"), head + "\n".join(files) + "\n")
+    imports, names = [], []
+    d = os.path.join(COQ, "extract.d")
+    for f in sorted(os.listdir(d)):
+        if f.endswith(".ext"):
+            for l in open(os.path.join(d, f)):
+                l = l.strip()
+                if not l or l.startswith("#"):
+                    continue
+                if l.startswith("import:"):
+                    imports.append(l[len("import:"):].strip())
+                else:
+                    names.append(l)
+    ext = ("(* ASSEMBLED from coq/extract.d/*.ext by lib/core.py -- the only extraction file of the project.\n"
+           "   ExtrOcamlBasic only: bool/option/unit/list/prod/sumbool map to OCaml's; nat, positive, N, Z stay the\n"
+           "   extracted Coq datatypes. *)\nRequire Extraction.\nRequire Import ExtrOcamlBasic.\n")
+    for i in imports:
+        ext += "From Ristretto Require Import %s.\n" % i
+    ext += 'Extraction "model.ml"\n  ' + "\n  ".join(names) + ".\n"
+    write_if_changed(os.path.join(COQ, "theories", "Extract", "Extract.v"), ext)
+
+
 def regenerate():
     """run the translators (model parts regenerated from /repo on every run)"""
     msgs = []
+    assemble_project()
     gen = os.path.join(ROOT, "gen", "asm2coq.py")
     if os.path.exists(gen):
         src = os.path.join(REPO, "z", "simd", "search_amd64.s")
